@@ -46,3 +46,23 @@ def format_triples(triples: 'list', indent: 'bool') -> 'str':
     # one conjunct per triple, in order, joined by ' ^' and a newline or a blank
     ensures(result == (' ^\n' if indent else ' ^ ').join([triple_text(t) for t in triples]))
     induct('0', lambda: triples)
+
+
+@spec
+def meta_line(key: 'str', value: 'str') -> 'str':
+    """a metadata comment: '# ::key value', or '# ::key' for an empty value; the value is written as it is"""
+    if value == '':
+        return '# ::' + key
+    return '# ::' + key + ' ' + value
+
+
+@contract('penman._format:format')
+def format(tree: 'Tree', indent: 'val', compact: 'bool') -> 'str':
+    requires(wf_tnode(tree.node))
+    requires(forall_idx(dict_keys(tree.metadata), lambda i, k: is_str(k) and is_str(dict_get(tree.metadata, k))))
+    # one comment line per metadata item, in order, then the node (`vars` is the function's local:
+    # the variables that may not be mistaken for attributes when compact)
+    ensures(result == '\n'.join([meta_line(k, dict_get(tree.metadata, k)) for k in dict_keys(tree.metadata)]
+                                + [fmt_node(tree.node, indent, 0, set(vars))]), label='lines')
+    ensures(implies(not compact, len(vars) == 0), label='vars')
+    induct('lines', lambda: dict_keys(tree.metadata))
